@@ -263,8 +263,19 @@ func (fx *FuncCtx) bind(st *State, obj types.Object, v Val) {
 	}
 	if fx.eng.addrTaken(fx, obj) {
 		// heap-allocated local
-		ref := fx.freshConst("loc_"+obj.Name(), SInt)
-		st.assume(Lt(ref, IntLit(0)))
+		var ref Term
+		if st.allocTop.S != "" {
+			// a new object above the allocation frontier: distinct from every object that existed at
+			// entry and from every other local / allocation of this activation
+			ref = fx.allocRef(st, "loc_"+obj.Name())
+		} else {
+			ref = fx.freshConst("loc_"+obj.Name(), SInt)
+			st.assume(Lt(ref, IntLit(0)))
+			for _, prev := range st.refs {
+				st.assume(Not(Eq(ref, prev)))
+			}
+			st.refs = append(st.refs[:len(st.refs):len(st.refs)], ref)
+		}
 		hv := heapVar{prefix: heapPrefix(obj.Type()), ref: ref}
 		fx.storeHeap(st, hv.prefix, ref, obj.Type(), v)
 		st.vars[obj] = hv
